@@ -70,11 +70,28 @@ def tasks(tier):
     from contracts import C20
     repo = Repo()
     mods = sorted(set(m for m, c in C20.equation_classes(repo)))
-    return ['frames:%s' % m for m in mods] + ['reorder', 'wiring', 'canary']
+    # contracts of other checks this property leans on are re-proved here
+    # (dep.*): deterministic layout of the generated loops (C03), the
+    # sorted-neighbour segment and flag (C01), re-ordering (C17)
+    deps = ['dep:C03:determinism', 'dep:C01:sortseg', 'dep:C01:sortflag',
+            'dep:C17:apply']
+    return ['frames:%s' % m for m in mods] + ['reorder', 'wiring',
+                                              'canary'] + deps
 
 
 def run_task(task, ctx):
     repo = Repo()
+    if task.startswith('dep:'):
+        import importlib
+        _, mod, t = task.split(':')
+        cm = importlib.import_module('contracts.' + mod)
+        n0, b0 = len(ctx.results), len(ctx.bounded)
+        cm.run_task(t, ctx)
+        for r in ctx.results[n0:]:
+            r['name'] = 'dep.%s.%s' % (mod.lower(), r['name'])
+        for b in ctx.bounded[b0:]:
+            b['name'] = 'dep.%s.%s' % (mod.lower(), b['name'])
+        return
     if task.startswith('frames:'):
         return task_frames(ctx, repo, task[7:])
     if task == 'reorder':
@@ -134,19 +151,34 @@ def task_frames(ctx, repo, mn):
 def task_reorder(ctx, repo):
     m = repo.module('pysph.solver.solver')
     fn = m.methods('Solver')['reorder_particles']
-    ev = []
+    # any domain (periodic, mirror or none)
+    mgr = SymObject(None, dict(is_periodic=z3.Bool('is_periodic'),
+                               is_mirror=z3.Bool('is_mirror')), 'manager')
     nn = SymObject(None, dict(
+        domain=SymObject(None, dict(manager=mgr), 'domain'),
         spatially_order_particles=Native(
-            lambda e, s_, a, k, n: ev.append(('order', a[0]))),
-        update=Native(lambda e, s_, a, k, n: ev.append(('update',)))),
+            lambda e, s_, a, k, n: s_.trace.append(('order', a[0]))),
+        update_domain=Native(lambda e, s_, a, k, n: s_.trace.append(
+            ('update_domain',))),
+        update=Native(lambda e, s_, a, k, n: s_.trace.append(('update',)))),
         'nnps')
     obj = SymObject('Solver', dict(particles=['a', 'b', 'c'], nnps=nn),
                     'self')
     obj.module = m.name
-    ex = Executor(repo, m, qualname='Solver.reorder_particles')
+    ex = Executor(repo, m, qualname='Solver.reorder_particles', merge=False)
     outs = ex.exec_function(fn, dict(self=obj))
-    ok = len(outs) == 1 and ev == [('order', 0), ('order', 1), ('order', 2),
-                                   ('update',)]
+    ok = len(outs) >= 1
+    pobs = []
+    ev = []
+    for i_, o in enumerate(outs):
+        tr = [t for t in o.state.trace if t[0] in ('order', 'update')]
+        ev = tr
+        # every array re-ordered, then the neighbour structures rebuilt
+        # (update_domain() alone re-creates ghosts but bins nothing)
+        good = tr == [('order', 0), ('order', 1), ('order', 2), ('update',)]
+        pobs.append(Obligation('reorder.path%d' % i_, o.pc,
+                               z3.BoolVal(bool(good)), m.path,
+                               extra=dict(backends=['z3'])))
     ctx.function(m, fn, 'Solver.reorder_particles', ex.dropped)
     # solve(): the initial re-order precedes initial_acceleration
     fs = m.methods('Solver')['solve']
@@ -168,21 +200,31 @@ import json, sys, importlib.util
 d = json.load(sys.stdin)
 spec = importlib.util.spec_from_file_location('solver_ut', d['root'] + '/pysph/solver/solver.py')
 mod = importlib.util.module_from_spec(spec); spec.loader.exec_module(mod)
-ev = []
-class N:
-    def spatially_order_particles(self, i): ev.append('order%d' % i)
-    def update(self): ev.append('update')
-s = mod.Solver.__new__(mod.Solver); s.particles = [1, 2]; s.nnps = N()
-s.reorder_particles()
-print(json.dumps(ev))
+bad = None
+for per in (False, True):
+    for mir in (False, True):
+        ev = []
+        class M: is_periodic = per; is_mirror = mir
+        class D: manager = M
+        class N:
+            domain = D
+            def spatially_order_particles(self, i): ev.append('order%d' % i)
+            def update(self): ev.append('update')
+            def update_domain(self): ev.append('update_domain')
+        s = mod.Solver.__new__(mod.Solver); s.particles = [1, 2]; s.nnps = N()
+        s.reorder_particles()
+        if [e for e in ev if e != 'update_domain'] != ['order0', 'order1', 'update'] and bad is None:
+            bad = dict(is_periodic=per, is_mirror=mir, observed=ev, expected=['order0', 'order1', 'update'])
+print(json.dumps(dict(bad=bad)))
 """
         from pyvc.repo import REPO_ROOT
-        ev_ = native.run_venv(script, dict(root=REPO_ROOT))
-        return dict(reproduced=ev_ != ['order0', 'order1', 'update'],
-                    observed=ev_, expected=['order0', 'order1', 'update'])
-    ctx.prove('reorder.then_update', [Obligation(
-        'reorder', [], z3.BoolVal(bool(ok and ok2)), m.path)], replay=rp,
-        info='events %s; solve() calls %s' % (ev, names))
+        r = native.run_venv(script, dict(root=REPO_ROOT))
+        return dict(reproduced=bool(r['bad']), **(r['bad'] or {}))
+    pobs.append(Obligation('reorder.solve_reorders_before_initial_'
+                           'acceleration', [], z3.BoolVal(bool(ok and ok2)),
+                           m.path))
+    ctx.prove('reorder.then_update', pobs, replay=rp, use_nf=False,
+              info='events %s; solve() calls %s' % (ev, names))
 
 
 def task_wiring(ctx, repo):
